@@ -316,6 +316,9 @@ func norm(v ssa.Value, depth int, seen map[ssa.Value]bool) string {
 		if x.IsNil() {
 			return "nil"
 		}
+		if x.Value == nil {
+			return "zero(" + tname(x.Type()) + ")"
+		}
 		return x.Value.String()
 	case *ssa.Global:
 		return "g:" + x.Name()
